@@ -10,12 +10,12 @@ ID = 'C19'
 LEVEL = 'exploration'
 TIERS = {'quick': 60000, 'thorough': 4000000}
 RULE = ('seeded operation sequences (length 1..60) over {put, find, find_allow_zeros, get (only when a matching entry exists, wildcards included), clear, '
-        'clear_all, len, contains} on 2x2 and 3x3 id domains (0 as a real id, None wildcards) and on large random domains, commands OKAY/WRTE/CLSE, every '
+        'clear_all, len, contains} on 2x2 and 3x3 id domains (0 as a real id, None wildcards) and on large random domains, commands OKAY/WRTE/CLSE with per-put unique payloads, 8% of the sequences with a 17..300-deep (thorough: ..1000) backlog on one pair that is then drained, every '
         'call mirrored into an executable reference model (dict of deques; any matching pending pair is accepted for wildcard lookups; put(CLSE) on a pair '
         'without an entry is unspecified). Prelude: the small domains swept completely up to length 3 (3x3 and 2x2; thorough: 2x2 up to length 4), restricted to sequences that start with a put. The same shadow model runs inside every '
         'concurrent simulation (C06). non-trivial = the sequence has a wildcard / zero-fallback lookup while >= 2 pairs are pending; distinct = digests of the op sequence')
 ASSUMPTIONS = ['get() is only called when a matching entry exists (its documented precondition)']
-EXPECT_PROBES = {'all': ['store_clse_dropped', 'store_clse_parked', 'c19_wildcard_2pending', 'c19_zero_fallback_hit']}
+EXPECT_PROBES = {'all': ['store_clse_dropped', 'store_clse_parked', 'c19_wildcard_2pending', 'c19_zero_fallback_hit', 'c19_backlog_ge_17', 'c19_backlog_ge_130']}
 TECHNIQUE = 'deterministic simulation: seeded operation histories against an executable reference model (model-based), plus the always-on store shadow in concurrent simulations'
 CMDS = [b'OKAY', b'WRTE', b'CLSE']
 
@@ -47,6 +47,22 @@ def generate(seed, tier):
                 a1 = None
         cmd = g.pick([0, 1, 2], [2, 4, 2])
         ops.append([k, a0, a1, cmd, g.int(0, 255)])
+    if g.chance(0.08):
+        # a deep backlog on one pair (a reader that is far behind), other pairs sprinkled in, then drained: every packet comes
+        # back, oldest first, however many are waiting
+        depth = g.pick([17, 33, 65, 130, 300, 1000]) if tier != 'quick' else g.pick([17, 33, 65, 130, 300])
+        a0, a1 = g.pick(ids0), g.pick(ids1)
+        burst = []
+        for j in range(depth):
+            burst.append(['put', a0, a1, g.pick([0, 1], [1, 5]), g.int(0, 255)])
+            if g.chance(0.1):
+                burst.append(['put', g.pick(ids0), g.pick(ids1), 2, g.int(0, 255)])
+            if g.chance(0.05):
+                burst.append([g.pick(['find', 'faz', 'len', 'contains']), a0, a1, 0, 0])
+        drain = [['get', a0, g.pick([a1, None]), 0, 0] for _ in range(depth + 2)]
+        at = g.int(0, len(ops))
+        ops = ops[:at] + burst + drain + ops[at:]
+        dom += '+backlog'
     return {'seed': seed, 'ops': ops, 'dom': dom}
 
 
@@ -54,10 +70,11 @@ def run_ops(ops):
     sh = ShadowStore(_new_store())
     wild = 0
     zero_hit = 0
-    for (k, a0, a1, cmd, b) in ops:
+    for i, (k, a0, a1, cmd, b) in enumerate(ops):
         try:
             if k == 'put':
-                sh.put(a0, a1, CMDS[cmd], bytes([b]) * (b % 3))
+                # payloads are unique per put (so that an out-of-order delivery is attributable), except for a share of empty ones
+                sh.put(a0, a1, CMDS[cmd], b'' if b % 5 == 0 else bytes([b, i & 0xFF, (i >> 8) & 0xFF]))
             elif k == 'find':
                 sh.find(a0, a1)
             elif k == 'faz':
@@ -91,6 +108,10 @@ def evaluate(case, tapes=None):
         out['probes']['c19_wildcard_2pending'] = 1
     if zero_hit:
         out['probes']['c19_zero_fallback_hit'] = 1
+    if sh.max_depth >= 17:
+        out['probes']['c19_backlog_ge_17'] = 1
+    if sh.max_depth >= 130:
+        out['probes']['c19_backlog_ge_130'] = 1
     out['nontrivial'] = sh.wild_with_2_pending > 0
     out['digest'] = h64(case['ops'])
     out['sample'] = {'domain': case['dom'], 'ops': [[o[0], o[1], o[2], CMDS[o[3]].decode()] for o in case['ops'][:12]], 'n_ops': len(case['ops'])}
